@@ -1,5 +1,6 @@
 #!/bin/bash
 # seed_run.sh <name> <tier> <ID>...: apply /verif/seeded/<name>/patch.diff to /repo, run the given checks, undo.
+# A check that ends with a machinery failure (rc>=2) leaves its output in /tmp/seedrun-logs/<name>.<ID>.log
 set -u
 NAME="$1"; TIER="$2"; shift 2
 cd /repo || exit 2
@@ -7,11 +8,13 @@ if [ -n "$(git status --porcelain -- src)" ]; then echo "/repo/src not clean"; e
 git apply /verif/seeded/$NAME/patch.diff 2>/dev/null || git apply --3way /verif/seeded/$NAME/patch.diff >/dev/null 2>&1 || { echo "$NAME: patch does not apply"; git reset -q --hard HEAD; exit 3; }
 if git diff --cached --name-only | grep -q . && git diff --cached | grep -q "^+<<<<<<<"; then echo "$NAME: patch conflicts"; git reset -q --hard HEAD; exit 3; fi
 RES=""
-mkdir -p /tmp/seedrun-$NAME && cp /verif/known_findings.json /tmp/seedrun-$NAME/
+mkdir -p /tmp/seedrun-$NAME /tmp/seedrun-logs && cp /verif/known_findings.json /tmp/seedrun-$NAME/
 for ID in "$@"; do
-  OUT=$(cd /verif && VERIF_ROOT=/tmp/seedrun-$NAME bin/check $ID $TIER 2>/dev/null); RC=$?
+  OUT=$(cd /verif && VERIF_ROOT=/tmp/seedrun-$NAME bin/check $ID $TIER 2>/tmp/seedrun-logs/$NAME.$ID.err); RC=$?
   SIG=$(echo "$OUT" | grep -m2 "signature=" | sed -E 's/.*signature=([^ ]+).*/\1/' | paste -sd,)
   RES="$RES $ID:rc=$RC[$SIG]"
+  if [ $RC -ge 2 ]; then { echo "$OUT"; cat /tmp/seedrun-logs/$NAME.$ID.err; } > /tmp/seedrun-logs/$NAME.$ID.log; fi
+  rm -f /tmp/seedrun-logs/$NAME.$ID.err
 done
 git reset -q --hard HEAD
 rm -rf /tmp/seedrun-$NAME
